@@ -307,3 +307,16 @@ def windowed_cases(rng, n, arm_models=("tx2", "n1", "a64fx", "tsv110")):
                     "arch": "zen1" if isa == "x86" else arm_models[j % len(arm_models)],
                     "text": text, "lines": "%d-%d" % (a, a + width)})
     return out
+
+
+def deep_variant(text, isa, k, drop_tail):
+    """The same kernel deep inside a big file: k comment lines in front, selected with --lines, so that
+    every line number is above 1000 (offset = max(1000, max line) then equals the last line number).
+    With drop_tail the closing compare-and-branch is removed, so the last selected line can lie on an
+    LCD."""
+    lines = [l for l in text.split("\n") if l.strip()]
+    if drop_tail:
+        lines = lines[:-2]
+    c = "# filler" if isa == "x86" else "// filler"
+    body = "\n".join([c] * k + lines) + "\n"
+    return body, "%d-%d" % (k + 1, k + len(lines))
